@@ -10,5 +10,8 @@ INVARIANT MHRatioIsTargetRatio
 INVARIANT MHDetailedBalance
 INVARIANT SwapDetailedBalance
 INVARIANT SwapRatioIsPermRatio
+INVARIANT ZeroCountNeutral
+INVARIANT ReadOrderIrrelevant
+INVARIANT RowsWellFormed
 INVARIANT Dump
 CHECK_DEADLOCK FALSE
